@@ -86,11 +86,14 @@ def draw_case(data, tier):
             "operands": operands, "prog": prog, "reject": reject}
 
 
+_SHARED_JIT = jax.jit(lambda m: m)  # one jitted identity for the whole process (compilation cache shared between cases)
+
+
 def _roundtrip(mi, kind):
     if kind == "copy":
         return mi.copy()
     if kind == "jit":
-        return jax.jit(lambda m: m)(mi)
+        return _SHARED_JIT(mi)
     if kind == "vmap":
         return jax.vmap(lambda m: m)(mi)
     if kind == "flatten":
